@@ -349,7 +349,8 @@ class Rd(ReadBase):
                 if pat in n_ and not re.search(r'\.(gz|bz2|Z|xz|lz|lzma|zst|lz4|uu|tgz|tbz|lzo|grz|lrz)$', n_):
                     return f
             return '-'
-        small = sorted(p_ for n_, p_ in pool if os.path.getsize(p_) <= 6000)
+        # (the 25-level gzip nesting sample costs a second per 7-byte-block run: sweep it in the thorough tier only)
+        small = sorted(p_ for n_, p_ in pool if os.path.getsize(p_) <= 6000 and (tier != 'quick' or 'recursive' not in n_))
         rng.shuffle(small)
         if tier == 'quick':                    # stratified: up to twelve samples of every format family
             per = {}
